@@ -936,7 +936,7 @@ class _Run:
                     if known is not None:
                         la = (la[0] & known[1], la[1] & known[2])
                     s2 = State(la, tuple({k: self._stale(v, s1) for k, v in env.items()} for env in s1.envs), s1.marks)
-                    yield Val.NONE, s2, ev1 + (("reset", origin, getattr(self, "istack", ())),)
+                    yield Val.NONE, s2, ev1 + (("guard", s1.la), ("reset", origin, getattr(self, "istack", ())),)
                 else:
                     # the stream is moved to a position that is not a mark taken on this path: tokens may be skipped
                     # unparsed.  Modelled as an arbitrary jump (look-ahead unknown) and reported by R-C18.2.
